@@ -37,6 +37,10 @@ func corpus() []string {
 }
 
 var builtinCorpus = []string{
+	// errors the parser raises itself (not through a failed token match), ending exactly at the end of the input
+	"for a, b <- fromto(0, 3) a",
+	"f = () -> for p, q, r <- elems(\"ab\"), fromto(0, 2) write(p)",
+	"for i <- fromto(0, 3), elems(\"xy\") i\n",
 	"all = (iter, f) -> {\n  for e <- iter() if !f(e) return false\n  true\n}\n",
 	"isprime = (n) -> {\n  if n < 2 return false\n  all(() -> fromto(2, n/2+1), (i) -> n % i != 0)\n}\nisprime(13)\n",
 	"funs = [ [\"+\", (a, b) -> a+b ], [\"-\", (a, b) -> a - b ] ]\n",
